@@ -127,6 +127,49 @@ def gen_state_tbl():
         broken.append("eval.ast_delete: ast_attribute_collapse(check_undef=...) call shape")
     else:
         body.append(f"def DELETE_CHECKS_HEAD : Bool := {'true' if flag else 'false'}")
+        # when the head is a python object: `delattr(obj, attr)` (after the fix) or `raise NameError` (before)
+        has_delattr = any(isinstance(c, ast.Call) and isinstance(c.func, ast.Name) and c.func.id == "delattr"
+                          for c in ast.walk(ad))
+        body.append(f"def DELETE_DELATTR : Bool := {'true' if has_delattr else 'false'}")
+
+    # recurse_assign: what `DOMAIN.name = None` hands to State.set – `val` (None = "omitted") or the string "None"
+    none_flag = None
+    if ra is not None:
+        for c in ast.walk(ra):
+            if isinstance(c, ast.Call) and ast.unparse(c.func) == "State.set" and len(c.args) == 2 and not c.keywords:
+                a = c.args[1]
+                if isinstance(a, ast.Name) and a.id == "val":
+                    none_flag = False
+                elif isinstance(a, ast.IfExp) and ast.unparse(a.test) == "val is None" \
+                        and isinstance(a.body, ast.Constant) and a.body.value == "None" \
+                        and isinstance(a.orelse, ast.Name) and a.orelse.id == "val":
+                    none_flag = True
+    if none_flag is None:
+        broken.append("eval.recurse_assign: State.set(var_name, <val>) argument shape")
+    else:
+        body.append(f"def ASSIGN_NONE_AS_STRING : Bool := {'true' if none_flag else 'false'}")
+
+    # State.setattr: `cls.set(name, **{attr: value})` (keyword expansion) or an explicit attribute dictionary
+    sa = find_func(st, "setattr", "State")
+    dict_flag = None
+    if sa is not None:
+        calls = [c for c in ast.walk(sa) if isinstance(c, ast.Call) and ast.unparse(c.func) == "cls.set"]
+        if len(calls) == 1 and len(calls[0].args) == 1:
+            kws = calls[0].keywords
+            if len(kws) == 1 and kws[0].arg is None and isinstance(kws[0].value, ast.Dict) and len(kws[0].value.keys) == 1:
+                dict_flag = False
+            elif len(kws) == 1 and kws[0].arg == "new_attributes" and isinstance(kws[0].value, ast.Name):
+                dname = kws[0].value.id
+                copied = any(isinstance(n, ast.Assign) and ast.unparse(n.targets[0]) == dname
+                             and ast.unparse(n.value).endswith(".attributes.copy()") for n in ast.walk(sa))
+                stored = any(isinstance(n, ast.Assign) and ast.unparse(n.targets[0]) == f"{dname}[parts[2]]"
+                             and ast.unparse(n.value) == "value" for n in ast.walk(sa))
+                if copied and stored:
+                    dict_flag = True
+    if dict_flag is None:
+        broken.append("state.State.setattr: cls.set(...) call shape")
+    else:
+        body.append(f"def SETATTR_EXPLICIT_DICT : Bool := {'true' if dict_flag else 'false'}")
 
     emit("StateTbl", "\n".join(body))
 
